@@ -219,6 +219,22 @@ def handle (req : J) : Except String J := do
   | "modeltuple" => do
     let xs ← decStrs (← field req "in")
     pure (resJ (fun (t : String × String × String) => Lean.Json.arr #[.str t.1, .str t.2.1, .str t.2.2]) (CliArgs.modelTuple xs))
+  | "setargs" => do
+    let kw ← decStrs (← field req "kw")
+    let dkr ← decStrs (← field req "dkr")
+    let dkf ← decStrs (← field req "dkf")
+    let dis ← asBool (← field req "disableUnicode")
+    let pre ← (match req.getObjVal? "preamble" with
+      | .ok (.str p) => pure (some p)
+      | _ => pure none)
+    pure (resJ (fun (r : CliArgs.SetArgs) => Lean.Json.mkObj [("dkr", encStrs r.dictKeysRegex), ("dkf", encStrs r.dictKeysFields),
+      ("preamble", match r.preamble with | some p => .str p | none => .null), ("convert_unicode", .bool r.convertUnicode),
+      ("kwargs", Lean.Json.arr (r.kwargs.map (fun (k, v) => Lean.Json.arr #[.str k, .str v])).toArray)])
+      (CliArgs.setArgs kw dkr dkf dis pre))
+  | "spaces" => do
+    let lim ← asNat (← field req "limit")
+    pure (okJ (Lean.Json.arr (((List.range lim).filter (fun n => CliArgs.pyIsSpace (Char.ofNat n))).map
+      (fun n => Lean.Json.num (Lean.JsonNumber.fromNat n))).toArray))
   | "removebyname" => do
     let reg ← decReg (← field req "reg")
     let name ← asStr (← field req "name")
